@@ -59,7 +59,7 @@ fn c06_main(args: &[String]) {
     let mut sample: Vec<String> = Vec::new();
     let mut exhausted = true;
     if mode == "dfs" {
-        let cfg = c06::Cfg { max_events: num(1), max_jobs: num(2), max_procs: num(3), max_launches: num(4) };
+        let cfg = c06::Cfg { max_events: num(1), max_jobs: num(2), max_procs: num(3), max_launches: num(4), handler: args.len() > 8 && args[8] == "handler" };
         let (shard, nshards, budget) = (num(5), num(6), num(7) as u64);
         // depth-first over choice paths, re-executing from the start; prune on (state key)
         let mut stack: Vec<Vec<usize>> = vec![vec![]];
@@ -120,7 +120,7 @@ fn c06_main(args: &[String]) {
     } else if mode == "walk" {
         let mut rng = Splitmix(args[1].parse::<u64>().unwrap());
         let nwalks = num(2);
-        let cfg = c06::Cfg { max_events: num(3), max_jobs: num(4), max_procs: num(5), max_launches: num(6) };
+        let cfg = c06::Cfg { max_events: num(3), max_jobs: num(4), max_procs: num(5), max_launches: num(6), handler: args.len() > 7 && args[7] == "handler" };
         for _ in 0..nwalks {
             let mut path: Vec<usize> = Vec::new();
             loop {
@@ -145,7 +145,7 @@ fn c06_main(args: &[String]) {
             }
         }
     } else if mode == "replay" {
-        let cfg = c06::Cfg { max_events: num(1), max_jobs: num(2), max_procs: num(3), max_launches: num(4) };
+        let cfg = c06::Cfg { max_events: num(1), max_jobs: num(2), max_procs: num(3), max_launches: num(4), handler: args.len() > 6 && args[6] == "handler" };
         let path: Vec<usize> = args[5].split(',').filter(|s| !s.is_empty()).map(|s| s.parse().unwrap()).collect();
         let out = c06::execute(&path, cfg);
         execs = 1;
